@@ -109,6 +109,7 @@ def cases(tier, rng, dist):
         c = [b for _ in range(ng) for b in range(nc) for _ in range(per)]
         resp = [Fraction(rng.randint(-3, 3) * per) for _ in g]
         yield {"f": "sptm", "g": g, "c": c, "resp": [str(v) for v in resp]}
+    yield from nan_arm_cases(rng)
     # named statistics with real seeds: all alternatives; reproducibility; options usable
     for _ in range(N // 2):
         ng = rng.randint(1, 3)
@@ -117,8 +118,35 @@ def cases(tier, rng, dist):
         resp = [rng.choice([0, 1]) if rng.random() < 0.5 else round(rng.gauss(0, 1), 2) for _ in g]
         if rng.random() < 0.2:
             resp[rng.randrange(len(resp))] = float("nan")
-        yield {"f": "named", "fn": rng.choice(["spt", "s2s_mean", "s2s_t", "s2s_mws", "sim_corr", "biv", "ts"]), "g": g, "c": c, "resp": resp,
+        elif rng.random() < 0.2:
+            # several NaN-coded non-responders (a documented feature): some rearrangements leave one arm without responders
+            for i in rng.sample(range(len(resp)), min(len(resp) - 1, rng.randint(2, 3))):
+                resp[i] = float("nan")
+        nanarm = False
+        if ng == 1 and rng.random() < 0.5:
+            # as many non-responders as one arm holds: for some rearrangements the arm is empty and the statistic NaN
+            resp = [float(rng.randint(0, 5)) for _ in g]
+            for i in rng.sample([0, 1, 2, 3], 2):
+                resp[i] = float("nan")
+            nanarm = True
+        sep = rng.random() if not nanarm else 0.9
+        if sep < 0.25:
+            # (nearly) perfectly separated binary responses: the pooled t statistic of the data, or of some
+            # rearrangement, is +-inf (both samples constant, different means) -- a legitimate, extreme value
+            resp = [float(ci) if sep < 0.15 else float(1 - ci) for ci in c]
+            if rng.random() < 0.4:
+                resp[rng.randrange(len(resp))] = float(rng.choice([0, 1]))
+        yield {"f": "named", "fn": rng.choice(["s2s_t", "s2s_t", "s2s_mean"]) if (sep < 0.25 or nanarm) else rng.choice(["spt", "s2s_mean", "s2s_t", "s2s_mws", "sim_corr", "biv", "ts"]), "g": g, "c": c, "resp": resp,
                "alt": rng.choice(ALTS), "reps": rng.randint(1, 10), "plus1": rng.random() < 0.5, "seed": real_seed(rng), "gseed": rng.randint(0, 10**6)}
+
+
+def nan_arm_cases(rng):
+    """non-responders (NaN) as numerous as one arm, observed statistic defined: some rearrangements empty an arm"""
+    for fn in ("s2s_mean", "s2s_t"):
+        for resp in ([2.0, float("nan"), float("nan"), 0.0], [float("nan"), 4.0, 3.0, float("nan")], [1.0, float("nan"), 5.0, float("nan"), 2.0, 7.0]):
+            n = len(resp)
+            yield {"f": "named", "fn": fn, "g": [0] * n, "c": [0] * (n // 2) + [1] * (n - n // 2), "resp": resp, "alt": rng.choice(ALTS), "reps": 8,
+                   "plus1": rng.random() < 0.5, "seed": real_seed(rng), "gseed": rng.randint(0, 10**6)}
 
 
 def to_arr(vals, dtype):
@@ -256,7 +284,16 @@ def doc_stat(fn, g, cond, u):
         c0 = cond.min(); return float(np.nanmean(u[cond == c0]) - np.nanmean(u[cond != c0]))
     if fn == "s2s_t":
         c0 = cond.min(); a = u[cond == c0]; b = u[cond != c0]
-        return float(ttest_ind(a[~np.isnan(a)], b[~np.isnan(b)], equal_var=True)[0])
+        a = a[~np.isnan(a)]; b = b[~np.isnan(b)]
+        # Student's t with the pooled variance, written out: zero pooled variance gives +-inf for different means, nan for equal ones
+        na, nb = len(a), len(b)
+        if na + nb < 3 or na == 0 or nb == 0:
+            return float("nan")
+        sp2 = (float(((a - a.mean()) ** 2).sum()) + float(((b - b.mean()) ** 2).sum())) / (na + nb - 2)
+        den = math.sqrt(sp2 * (1.0 / na + 1.0 / nb)); diff = float(a.mean() - b.mean())
+        if den == 0:
+            return float("nan") if diff == 0 else math.copysign(float("inf"), diff)
+        return diff / den
     if fn == "s2s_mws":
         return sptm(g, cond, u)
     raise KeyError(fn)
@@ -292,7 +329,7 @@ def run_named_tape(c):
         exp = [doc_stat("s2s_mws", g.tolist(), cond.tolist(), resp.tolist())]
         for _ in range(c["reps"]):
             exp.append(doc_stat("s2s_mws", g.tolist(), m_pwg(cond.tolist(), g.tolist(), ans), resp.tolist()))
-        return {"r": ["ok", float(p), float(tst), [float(v) for v in d]], "expected": exp}
+        return {"r": ["ok", float(p), float(tst), [float(v) for v in d]], "expected": exp, "leftover": len(ans)}
     st = {"s2s_mean": "mean", "s2s_t": "t", "s2s_mws": "mean_within_strata"}[c["fn"]]
     r = guarded(lambda: stratified.stratified_two_sample(g, cond, resp, stat=st, alternative=c["alt"], reps=c["reps"], keep_dist=True, seed=t, plus1=c["plus1"]))
     if r[0] != "ok":
@@ -304,7 +341,7 @@ def run_named_tape(c):
     exp = [doc_stat(c["fn"], g0, c0, r0)]
     for _ in range(c["reps"]):
         exp.append(doc_stat(c["fn"], g0, c0, m_pwg(r0, g0, ans)))
-    return {"r": ["ok", float(p), float(tst), [float(v) for v in d]], "expected": exp}
+    return {"r": ["ok", float(p), float(tst), [float(v) for v in d]], "expected": exp, "leftover": len(ans)}
 
 
 def run_named(c):
@@ -574,8 +611,11 @@ def oracle(c, o):
         if tp["r"][0] != "ok":
             return {"why": f"{name} raised on a scripted tape: {tp['r']}", "cls": f"{CANON.get(name, name)}:raises"}
         got = [tp["r"][2]] + tp["r"][3]
+        if tp.get("leftover"):
+            return {"why": f"{CANON.get(name, name)} drew {tp['leftover']} more answers than one within-stratum pass for each of the {c['reps']} repetitions: the number of draws depends on the data (response={c['resp']})",
+                    "cls": f"{CANON.get(name, name)}:draws-depend-on-data"}
         for k, (gv, ev) in enumerate(zip(got, tp["expected"])):
-            if math.isfinite(ev) and not (abs(gv - ev) <= 1e-9 * (1 + abs(ev))):
+            if (math.isfinite(ev) and not (abs(gv - ev) <= 1e-9 * (1 + abs(ev)))) or (math.isinf(ev) and gv != ev):
                 what = "observed statistic" if k == 0 else f"simulated value {k - 1}"
                 fnn = "stratified_permutationtest (default statistic)" if name == "spt" else f"stratified_two_sample(stat={name[4:]!r})"
                 return {"why": f"{fnn}: {what} = {gv} but the documented statistic on the {'data as given' if k == 0 else 'within-stratum rearrangement selected by the draws'} is {ev} (response={c['resp']})",
@@ -597,9 +637,16 @@ def oracle(c, o):
             return {"why": f"{name} ({k}) advanced numpy's global random state", "cls": f"{name}:global-rng"}
     p, tst, d = rs["int1"][1:4]
     if len(d) != c["reps"]: return {"why": f"{name}: len(dist) != reps", "cls": f"{name}:dist-length"}
+    alt = c["alt"] if name not in ("biv", "ts") else "greater"
     if all(math.isfinite(v) for v in d + [tst]):
-        alt = c["alt"] if name not in ("biv", "ts") else "greater"
         return tail_check(name, alt, p, tst, d, c["plus1"])
+    if not any(math.isnan(v) for v in d + [tst]) and alt == "greater":
+        # infinite values are ordinary extended reals for the tail count (+-inf compare exactly)
+        cc = 1 if c["plus1"] else 0
+        want = Fraction(sum(1 for v in d if v >= tst) + cc, len(d) + cc)
+        if not close(p, want):
+            return {"why": f"{CANON.get(name, name)}: p={p} but (#{{dist >= observed}}+c)/(reps+c) = {want} (obs={tst}, dist={d}, plus1={c['plus1']})",
+                    "cls": f"{CANON.get(name, name)}:tail:greater"}
     return None
 
 
